@@ -15,7 +15,7 @@ import subprocess
 from . import kani_run
 from .queries import CONFIGS
 
-LOOP_RE = re.compile(r"^Loop (\S+):\n\s+file (\S+) line (\d+) function (.*)$", re.M)
+LOOP_RE = re.compile(r"^Loop (\S+):\n\s+file (\S+) line (\d+)(?: column \d+)? function (.*)$", re.M)
 
 
 def discover(crate, q, target_dir, log_path):
